@@ -1391,6 +1391,37 @@ class Emitter:
                 out.append('void run_%s(void) { __verif_global_ctors(); %s(); }' % (name, self.own_name(name)))
         return out
 
+    def base_chain(self, name):
+        out = [name]
+        seen = set()
+        while True:
+            d = self.m.types.get(name)
+            if d is None or d.k != 'lit' or not d.b or d.b[0].k != 'named' or d.b[0].a in seen:
+                break
+            name = d.b[0].a
+            seen.add(name)
+            out.append(name)
+        return out
+
+    def related_classes(self, a, b):
+        return a == b or b in self.base_chain(a) or a in self.base_chain(b)
+
+    def vtable_slot_funcs(self, k):
+        """functions stored at virtual slot k (array index k+2: offset-to-top and RTTI come first) of any vtable"""
+        if not hasattr(self, '_vt'):
+            self._vt = {}
+            for name, g in self.m.globals.items():
+                if not name.startswith('_ZTV') or g['init'] is None or g['init'].k != 'agg':
+                    continue
+                for arr in g['init'].d:
+                    if arr.k != 'agg':
+                        continue
+                    for idx, e in enumerate(arr.d):
+                        b = strip_casts(e)
+                        if b is not None and b.k == 'global' and b.d in self.m.funcs:
+                            self._vt.setdefault(idx - 2, set()).add(b.d)
+        return self._vt.get(k, set())
+
     def scan_addr_taken(self):
         taken = set()
 
@@ -1792,11 +1823,19 @@ class FuncEmitter:
             else:
                 if em.opts.footprint:
                     B.append('__fp_load((void*)%s);' % em.val(a[0], self))
-                B.append('%s = *%s;' % (self.lv(i.res), em.val(a[0], self)))
+                ta = self.typed_leaf(a[0], i.t)
+                if ta is not None:
+                    B.append('%s = (%s)%s;' % (self.lv(i.res), em.ct(i.t), ta[0]))
+                else:
+                    B.append('%s = *%s;' % (self.lv(i.res), em.val(a[0], self)))
         elif op == 'store':
             if em.opts.footprint:
                 B.append('__fp_store((void*)%s);' % em.val(a[1], self))
-            B.append('*%s = %s;' % (em.val(a[1], self), em.val(a[0], self)))
+            ta = self.typed_leaf(a[1], a[0].t)
+            if ta is not None:
+                B.append('%s = (%s)%s;' % (ta[0], em.ct(ta[1]), em.val(a[0], self)))
+            else:
+                B.append('*%s = %s;' % (em.val(a[1], self), em.val(a[0], self)))
         elif op == 'alloca':
             t, cnt = a
             if cnt is None or (cnt.k == 'int'):
@@ -1929,10 +1968,30 @@ class FuncEmitter:
             if lt.k == 'ptr' and lt.a.k == 'func':
                 fnty = lt.a
         cands = []
-        for name in sorted(em.addr_taken):
+        pool = sorted(em.addr_taken)
+        slot = self.vtable_slot(callee)
+        if slot is not None:
+            # virtual call through slot k of the object's vtable: only functions stored at that slot of some vtable
+            vs = em.vtable_slot_funcs(slot)
+            if vs:
+                pool = sorted(vs)
+        this_t = args[0].t.a if (slot is not None and args and args[0].t.k == 'ptr' and args[0].t.a.k == 'named') else None
+        for name in pool:
             f = em.m.funcs[name]
             if len(f.params) != len(args) and not f.vararg:
                 continue
+            if this_t is not None and f.params and f.params[0][0].k == 'ptr' and f.params[0][0].a.k == 'named':
+                # virtual call: the target's class is the static class of `this`, one of its bases or one of its derived
+                # classes (single inheritance: the base subobject is the first field)
+                if not em.related_classes(this_t.a, f.params[0][0].a.a):
+                    continue
+                # harness-declared restriction (sound: a target outside the list trips the 'unknown target' assertion)
+                skip = False
+                for recv_re, fn_re in (em.opts.vcall or []):
+                    if re.search(recv_re, this_t.a) and not re.search(fn_re, name):
+                        skip = True
+                if skip:
+                    continue
             ok = kind_compat(f.ret, i.t)
             for (pt, _), x in zip(f.params, args):
                 ok = ok and kind_compat(pt, x.t)
@@ -2005,6 +2064,27 @@ class FuncEmitter:
             B.append('__verif_terminate();')
             return True
         return False
+
+    def vtable_slot(self, callee):
+        """callee = load (gep (load vptr), k)  or  load (load vptr)  -> k"""
+        if callee.k != 'local':
+            return None
+        d = self.defs().get(callee.d)
+        if d is None or d.op != 'load':
+            return None
+        p = d.a[0]
+        if p.k != 'local':
+            return None
+        g = self.defs().get(p.d)
+        if g is None:
+            return None
+        if g.op == 'load':
+            return 0
+        if g.op == 'gep' and len(g.a[2]) == 1 and g.a[2][0].k == 'int' and g.a[1].k == 'local':
+            b = self.defs().get(g.a[1].d)
+            if b is not None and b.op == 'load':
+                return g.a[2][0].d
+        return None
 
     def throw_edge(self, i):
         if i.op == 'invoke':
@@ -2144,6 +2224,50 @@ class FuncEmitter:
             return
         raise NotImplementedError('intrinsic ' + name)
 
+    def typed_leaf(self, ptr, acc_t):
+        """access of scalar type acc_t through `ptr` that is a bitcast of a pointer to an aggregate: if the aggregate's
+        first leaf field (offset 0) is a scalar of the same kind and size, return (lvalue expression, leaf type) so that
+        the access is typed (CBMC keeps typed accesses to struct fields precise; type-punned ones become byte updates
+        that e.g. hide a constant vptr)"""
+        em = self.em
+        if acc_t.k not in ('ptr', 'int'):
+            return None
+        org = None
+        if ptr.k == 'cexpr' and ptr.d[0] == 'cast' and ptr.d[1] == 'bitcast' and ptr.d[2].t.k == 'ptr':
+            org = (em.val(ptr.d[2], self), ptr.d[2].t.a)
+        elif ptr.k == 'local':
+            d = self.defs().get(ptr.d)
+            if d is not None and d.op == 'cast' and d.a[0] == 'bitcast' and d.a[1].t.k == 'ptr' and d.a[1].k in ('local', 'global'):
+                org = (em.val(d.a[1], self), d.a[1].t.a)
+        if org is None:
+            return None
+        e, t = '(*%s)' % org[0], org[1]
+        depth = 0
+        while True:
+            tt = em.m.types.get(t.a) if t.k == 'named' else t
+            if tt is None:
+                return None
+            if tt.k == 'lit':
+                if not tt.b:
+                    return None
+                e, t = e + '.f0', tt.b[0]
+            elif tt.k == 'arr':
+                if tt.a == 0:
+                    return None
+                e, t = e + '.a[0]', tt.b
+            else:
+                break
+            depth += 1
+            if depth > 12:
+                return None
+        if depth == 0:
+            return None
+        if t.k == 'ptr' and acc_t.k == 'ptr':
+            return (e, t)
+        if t.k == 'int' and acc_t.k == 'int' and t.a == acc_t.a and t.a != 1:
+            return (e, t)
+        return None
+
     def ptr_origin(self, v):
         """if v is (a bitcast of) a typed pointer, return (C expr of original pointer, pointee type)"""
         em = self.em
@@ -2194,6 +2318,8 @@ def main():
     ap.add_argument('--ub', action='store_true')
     ap.add_argument('--footprint', action='store_true')
     ap.add_argument('--redirect', action='append', type=lambda s: tuple(s.split('=', 1)))
+    ap.add_argument('--vcall', action='append', type=lambda s: tuple(s.split('=', 1)),
+                    help='RECV_RE=FUNC_RE: virtual calls on receivers whose static class matches RECV_RE may only target functions matching FUNC_RE')
     opts = ap.parse_args()
     text = open(opts.input).read()
     m = parse_module(text)
